@@ -342,6 +342,27 @@ def search(ctx):
                                                         "inner_outcomes": repr(outs), "ops": repr(ops)},
                               "observed": repr(r[0]), "size": 100 + len(ops), "hash_case": repr(x)})
                 break
+    # "afterwards the client is still usable": the one server fails once and is healthy from then on; reads keep coming (the clock
+    # moves a second at every reading, so calls are a few seconds apart, far closer than dead_timeout): within a few dead_timeout
+    # periods the reads must be HITS again, not the miss value for ever
+    for ra in (0, 1, 2):
+        for name, kw, _ in H_OPS:
+            miss = D if name in ("get", "gat") else (D, CD)
+            hit = b"v" if name in ("get", "gat") else (b"v", b"7")
+            f = (TAGS["ConnectionRefusedError"],)
+            x = ((ra, 1, 10, True, b"", False), [("h1", 1)], 100, [100 + i for i in range(400)], [f] * (ra + 1) + [hit] * 80, [(5, name, b"k", kw, miss)] * 60)
+            r = hs.run_impl(*x)
+            nhist += 1
+            tail = [res for res in r[0][-5:]]
+            if any(res[0] == "e" for res in r[0]):
+                found.append({"clause": "HashClient.%s raised %s under ignore_exc" % (name, [res for res in r[0] if res[0] == "e"][0][1]),
+                              "input": {"class": "HashClient", "cfg": repr(x[0]), "history": "one failing contact, then a healthy server; a read every few seconds"},
+                              "observed": repr(r[0][:8]), "size": 160, "hash_case": repr(x)})
+            elif all(res[1] != hs.canon_value(hit) for res in tail):
+                found.append({"clause": "after ONE failure (retry_attempts=%d) the healthy server was never used again: %d reads over %d s (dead_timeout 10 s) all returned "
+                                        "the miss value - the client did not become usable again" % (ra, len(r[0]), r[5][-1][-1] - 100 if r[5] else 0),
+                              "input": {"class": "HashClient", "cfg": repr(x[0]), "history": "one failing contact, then a healthy server; a read every few seconds",
+                                        "operation": name}, "observed": repr(tail), "size": 160, "usable_case": repr(x)})
     f3, nfresh = fresh_result_probe()
     found += f3
     ctx.search_summary = {"fresh_result_probes": nfresh, "hash_failover_histories": nhist, "failing_plans_compared_with_the_miss_result": n, "plans_that_do_not_fail_the_call": skipped, "stacks": STACKS}
@@ -355,6 +376,12 @@ def replay(ctx, obj):
         r = hs.run_impl(*eval(v["hash_case"]))
         print("HashClient history ->", r[0])
         return any(x[0] == "e" for x in r[0])
+    if v and v.get("usable_case"):
+        x = eval(v["usable_case"])
+        r = hs.run_impl(*x)
+        hitv = hs.canon_value(x[4][-1])
+        print("last reads ->", r[0][-5:])
+        return all(res[1] != hitv for res in r[0][-5:])
     if v and v.get("fresh_case"):
         f, _ = fresh_result_probe()
         hit = [x for x in f if x["fresh_case"] == v["fresh_case"]]
